@@ -679,8 +679,8 @@ T = {
  "C09-7": dict(
     change="x/perpetual/keeper/hooks_amm.go: the amm hooks check the pool balance against the LONG side's custody only (a local helper instead of CheckLowPoolHealthAndMinimumCustody)",
     needs="open short positions (custody in the base currency) and a liquidity exit that takes the pool's base-currency holdings below that custody while the pool-health threshold still passes",
-    caught_by="NOT CAUGHT",
-    history="MISSED, and still missed: in the worlds of the harness an exit large enough to dip under the shorts' custody also trips the pool-health threshold, which the changed helper still applies (scenario c09-liquidity-exit-against-short-custody reaches the refusal, not the gap); a world with a lower PoolOpenThreshold was not built"),
+    caught_by="C09.custody_backed in scenario c09-liquidity-exit-against-short-custody",
+    history="MISSED at first (with the default pool-health threshold an exit large enough to dip under the shorts' custody is refused by the health test, which the changed helper keeps); a directed scenario with a governance-lowered PoolOpenThreshold, two large shorts and the pool creator's exits added; caught since"),
  "C10-7": dict(
     change="x/leveragelp/keeper/msg_server_close_positions.go ClosePositions: each amm pool is read once per request; later stop-loss entries are judged on the LP price from before the earlier closes of the same request",
     needs="one MsgClosePositions naming two positions of one pool: the earlier one really closes (the LP price rises), the later one has a stop loss between the stale and the true price",
